@@ -21,12 +21,14 @@ Fns    == {"plain", "test", "testAttrs", "async"}
 Loops  == {"for", "while", "loop"}
 Wraps  == {"spawn_blocking", "block_in_place"}
 Inners == Loops \cup Wraps \cup {"closure"}
+\* cloneLetMentioned: like cloneLetUnused, and the source's NAME occurs afterwards in a string literal, a comment and
+\* as a field name of another value - none of which is a use of the variable
 \* unwrapChain2 / unwrapChainLines: two .unwrap() calls in one method chain (on one line / one call per line);
 \* expectThenUnwrap: `.expect(..)` and `.unwrap()` in one chain
-Items  == {"unwrap", "expect", "unwrapChain2", "unwrapChainLines", "expectThenUnwrap", "clonePlain", "cloneChain", "cloneLetUnused",
+Items  == {"unwrap", "expect", "unwrapChain2", "unwrapChainLines", "expectThenUnwrap", "clonePlain", "cloneChain", "cloneLetUnused", "cloneLetMentioned",
            "blockFs", "blockFsUse", "blockSleep", "blockNet"}
 LinterOf(it) == CASE it \in {"unwrap", "expect", "unwrapChain2", "unwrapChainLines", "expectThenUnwrap"} -> "unwrap-abuse"
-                  [] it \in {"clonePlain", "cloneChain", "cloneLetUnused"} -> "clone-abuse"
+                  [] it \in {"clonePlain", "cloneChain", "cloneLetUnused", "cloneLetMentioned"} -> "clone-abuse"
                   [] OTHER -> "blocking-async"
 
 InnerSeqs == {<<>>} \cup {<<a>> : a \in Inners} \cup {<<a, b>> : a \in Inners, b \in Inners}
@@ -47,7 +49,7 @@ Reported(s, o) ==
       [] s.item = "expect" -> ~o.allowExpect /\ ~Exempt(s, o)
       [] s.item = "clonePlain"     -> InLoop(s) /\ o.detectLoop /\ ~Exempt(s, o)
       [] s.item = "cloneChain"     -> ((InLoop(s) /\ o.detectLoop) \/ o.detectChain) /\ ~Exempt(s, o)
-      [] s.item = "cloneLetUnused" -> ((InLoop(s) /\ o.detectLoop) \/ o.detectUnnecessary) /\ ~Exempt(s, o)
+      [] s.item \in {"cloneLetUnused", "cloneLetMentioned"} -> ((InLoop(s) /\ o.detectLoop) \/ o.detectUnnecessary) /\ ~Exempt(s, o)
       [] s.item \in {"blockFs", "blockFsUse"} -> InAsync(s) /\ ~InWrapper(s) /\ o.detectFs /\ ~Exempt(s, o)
       [] s.item = "blockSleep"     -> InAsync(s) /\ ~InWrapper(s) /\ o.detectSleep /\ ~Exempt(s, o)
       [] s.item = "blockNet"       -> InAsync(s) /\ ~InWrapper(s) /\ o.detectNet /\ ~Exempt(s, o)
@@ -63,7 +65,7 @@ Count(s, o) ==
     ELSE B2N(Reported(s, o))
 \* sites the documentation leaves open (no verdict)
 Unspecified(s) == (LinterOf(s.item) = "clone-abuse" /\ LoopBehindClosure(s))
-                  \/ (s.item = "cloneLetUnused" /\ InLoop(s))   \* "never used afterwards" inside a loop body re-entered
+                  \/ (s.item \in {"cloneLetUnused", "cloneLetMentioned"} /\ InLoop(s))   \* "never used afterwards" inside a loop body re-entered
 
 Opts == [allowInTests : BOOLEAN, allowExpect : BOOLEAN, detectLoop : BOOLEAN, detectChain : BOOLEAN,
          detectUnnecessary : BOOLEAN, detectFs : BOOLEAN, detectSleep : BOOLEAN, detectNet : BOOLEAN]
